@@ -8,9 +8,9 @@ use libtw2_common::num::Cast;
 use libtw2_packer::Unpacker;
 use serde_derive::Serialize;
 use std::cmp;
+use std::collections::BTreeMap;
 use std::fmt;
 use std::ops;
-use vec_map::VecMap;
 
 pub use crate::format::Header;
 
@@ -143,8 +143,8 @@ impl fmt::Debug for Pos {
 pub struct Reader {
     version: format::Version,
     tick: i32,
-    players: VecMap<Pos>,
-    inputs: VecMap<[i32; INPUT_LEN]>,
+    players: BTreeMap<usize, Pos>,
+    inputs: BTreeMap<usize, [i32; INPUT_LEN]>,
     max_cid: i32,
     prev_player_cid: Option<i32>,
     next_item_kind: Option<item::Kind>,
@@ -156,8 +156,8 @@ impl Reader {
         Reader {
             version: version,
             tick: 0,
-            players: VecMap::new(),
-            inputs: VecMap::new(),
+            players: BTreeMap::new(),
+            inputs: BTreeMap::new(),
             max_cid: -1,
             prev_player_cid: None,
             next_item_kind: None,
@@ -290,7 +290,7 @@ impl Reader {
                 let cid = i.cid.try_usize().ok_or(format::Error::InvalidClientId)?;
                 let player = self
                     .players
-                    .get_mut(cid)
+                    .get_mut(&cid)
                     .ok_or(format::Error::PlayerDiffWithoutNew)?;
                 let old_pos = *player;
                 *player = player.wrapping_add(Pos { x: i.dx, y: i.dy });
@@ -317,7 +317,7 @@ impl Reader {
                 let cid = i.cid.try_usize().ok_or(format::Error::InvalidClientId)?;
                 let pos = self
                     .players
-                    .remove(cid)
+                    .remove(&cid)
                     .ok_or(format::Error::PlayerOldWithoutNew)?;
                 Item::PlayerOld(Player {
                     cid: i.cid,
@@ -328,7 +328,7 @@ impl Reader {
                 let cid = i.cid.try_usize().ok_or(format::Error::InvalidClientId)?;
                 let input = self
                     .inputs
-                    .get_mut(cid)
+                    .get_mut(&cid)
                     .ok_or(format::Error::InputDiffWithoutNew)?;
                 for (i, d) in zip_eq(input.iter_mut(), i.diff.iter()) {
                     *i = i.wrapping_add(*d);
@@ -353,10 +353,10 @@ impl Reader {
         }))
     }
     pub fn player_pos(&self, cid: i32) -> Option<Pos> {
-        self.players.get(cid.assert_usize()).cloned()
+        self.players.get(&cid.assert_usize()).cloned()
     }
     pub fn input(&self, cid: i32) -> Option<[i32; INPUT_LEN]> {
-        self.inputs.get(cid.assert_usize()).cloned()
+        self.inputs.get(&cid.assert_usize()).cloned()
     }
     pub fn cids(&self) -> ops::Range<i32> {
         0..self.max_cid.saturating_add(1)
